@@ -98,6 +98,10 @@ func runC18(c *Ctx) {
 	c18PerVisitState(c, pk)
 	c18AccumulatorCarry(c, pk)
 	ruleKeyInjective(c, "KEY-INJECTIVE", "private/bufpkg/bufimage/bufimagemodify/internal")
+	if q := c.P.Pkg("private/bufpkg/bufimage/bufimagemodify/internal"); q != nil {
+		ruleSortedInvariant(c, "SORTED-INVARIANT", []*packages.Package{q}, 2)
+	}
+	c16TablesInverse(c)
 	info := pk.TypesInfo
 	fileOptNums := descriptorFieldNumbers(p, "FileOptions")
 	fieldOptNums := descriptorFieldNumbers(p, "FieldOptions")
